@@ -420,7 +420,13 @@ Inductive op :=
 | OHas (name : bytes)
 | ODelete (name : bytes)
 | OStoreLoad          (* WriteToFile at fresh addresses, then LoadFromFile into a new object *)
-| ORewrite.           (* WriteAt in place, then LoadFromFile into a new object *)
+| ORewrite            (* WriteAt in place, then LoadFromFile into a new object *)
+| OWriteAt            (* WriteAt in place on the current object, NO reload: the history continues on the
+                         same object (loaded addresses and lazy state are kept), so one loaded handle
+                         can be written in place any number of times *)
+| OStore.             (* WriteToFile at fresh addresses, NO reload: the object keeps its loaded addresses
+                         (WriteToFile does not touch loadedHeaderAddress/loadedLeafAddress; it only sets
+                         header.RootNodeAddr to the new leaf address) *)
 
 Inductive res := RErr | ROk | RFound (id8 : bytes) | RNotFound | RBool (b : bool).
 
@@ -465,6 +471,12 @@ Definition step (c : cfg) (w : world) (o : op) : world * res :=
     | None => (w, RErr)
     | Some w1 => match reload c w1 (loaded_hdr (bt w1)) with Some w2 => (w2, ROk) | None => (w1, RErr) end
     end
+  | OWriteAt =>
+    match write_in_place (c_osz c) w with
+    | None => (w, RErr)
+    | Some w1 => (w1, ROk)
+    end
+  | OStore => let '(w1, _) := write_to_file (c_osz c) w in (w1, ROk)
   end.
 
 Fixpoint run_from (c : cfg) (w : world) (ops : list op) : world * list res :=
@@ -513,6 +525,8 @@ Definition spec_step (cap : N) (st : sstate) (o : op) : sstate * res :=
     end
   | OStoreLoad => (mkS m true, ROk)
   | ORewrite => if s_loaded st then (st, ROk) else (st, RErr)
+  | OWriteAt => if s_loaded st then (st, ROk) else (st, RErr)     (* the map is not changed by writing it out *)
+  | OStore => (st, ROk)
   end.
 
 Fixpoint spec_run_from (cap : N) (st : sstate) (ops : list op) : sstate * list res :=
